@@ -455,6 +455,10 @@ def run(tier):
     import x19_values
     if x19_values.enabled():
         x19_values.run_part(ck, tier)
+    # extension X28: tick generators and range helpers (checks/x28_ticks.py, docs/X28_ticks.md)
+    import x28_ticks
+    if x28_ticks.enabled():
+        x28_ticks.run_part(ck, tier)
     return ck.finish()
 
 
@@ -464,6 +468,9 @@ def replay(path):
     if det.get("x19"):
         import x19_values
         return x19_values.replay(det, path)
+    if det.get("x28"):
+        import x28_ticks
+        return x28_ticks.replay(det, path)
     beh = det.get("behaviour")
     if not beh:
         print(json.dumps(det, indent=1)[:4000])
